@@ -317,6 +317,57 @@ def marksOf : List QItem → Nat
   | .item _ _ :: q => marksOf q
   | .mark :: q => marksOf q + 1
 
+/-! ## One timed call of `ResponsiveQueue` (`put/get(block=True, timeout=T)`, queue.py:51-78)
+
+`_get_put` for a single call that starts at clock 0 and cannot succeed before `r` (`none` = never):
+a loop of bounded waits of `min(w, time left)`; after a wait that timed out, first the caller's own
+timeout is tested (`time_available <= 0` → `Full/Empty`), then the stop event.  `T = none` is the
+call without a timeout (the 24 h limit is not modelled), `s` the clock of the stop request,
+`tie` says whether a stop request made at the very instant of a poll is seen by that poll (both
+orders are legal schedules).  `fuel` bounds the number of waits (`running` = still blocked). -/
+
+inductive CallEnd where
+  | ok (t : Nat) | stop (t : Nat) | expire (t : Nat) | running
+  deriving Repr, DecidableEq
+
+/-- is the stop request visible to a poll at clock `p`? -/
+def stopSeen (s : Option Nat) (tie : Bool) (p : Nat) : Bool :=
+  match s with
+  | none => false
+  | some s0 => decide (s0 < p) || (s0 == p && tie)
+
+/-- clock of the next poll when a bounded wait of `min(w, time left)` starts at `t` -/
+def nextPoll (w : Nat) (T : Option Nat) (t : Nat) : Nat :=
+  match T with
+  | some T0 => min (t + w) T0
+  | none => t + w
+
+/-- `time_available <= 0` at clock `p` -/
+def expired (T : Option Nat) (p : Nat) : Bool :=
+  match T with
+  | some T0 => decide (T0 ≤ p)
+  | none => false
+
+/-- the operation became possible no later than clock `p` -/
+def rescued (r : Option Nat) (p : Nat) : Bool :=
+  match r with
+  | some r0 => decide (r0 ≤ p)
+  | none => false
+
+/-- `timedCall w T s tie r fuel t`: a bounded wait starts at clock `t` -/
+def timedCall (w : Nat) (T s : Option Nat) (tie : Bool) (r : Option Nat) : Nat → Nat → CallEnd
+  | 0, _ => .running
+  | fuel + 1, t =>
+    let p := nextPoll w T t
+    if rescued r p then .ok (r.getD 0)
+    else if expired T p then .expire p
+    else if stopSeen s tie p then .stop p
+    else timedCall w T s tie r fuel p
+
+def CallEnd.time : CallEnd → Nat
+  | .ok t | .stop t | .expire t => t
+  | .running => 0
+
 /-- the value multiset of a log -/
 def vals (l : List (Nat × Nat)) : List Nat := l.map Prod.snd
 
